@@ -890,6 +890,23 @@ def run(ctx: Ctx):
         mode = [[], ["--noopt"], ["--nodebump", "--noopt"], ["--nodebump"]][ci % 4]
         opts = ["--ff=" + rng.choice(["AMBER", "PARSE", "CHARMM", "SWANSON"]), "--titration-state-method=propka", f"--with-ph={rng.choice([0.5, 1.0, 2.0, 3.5])}"] + mode
         check_case(ctx, drv, G.to_pdb([res], waters), opts, {"kind": "carboxyl-protonated-by-pH", "mode": " ".join(mode) or "default", "target": must, "pos": "?"}, seen_sig)
+    # waters that come with hydrogens of their own: both, the first only, the second only (the excluded point of
+    # water_clean: the run must then fail loudly or end with a complete water), hydrogen listed before the oxygen
+    for ci in range(ctx.scale(4, 60)):
+        _f, res = G.window(rng, rng.choice([2, 3]))
+        G.set_chain(res, "A", 1)
+        c = G.centroid(res)
+        body = G.to_pdb([res], end=False)
+        pos = {"O": (0.0, 0.0, 0.0), "H1": (0.96, 0.0, 0.0), "H2": (-0.24, 0.93, 0.0)}
+        lines = []
+        for wi in range(rng.randint(1, 3)):
+            given = [["O", "H1", "H2"], ["O", "H1"], ["O", "H2"], ["H1", "O"], ["O"]][(ci + wi) % 5]
+            o = [c[k] + rng.uniform(4.0, 8.0) * rng.choice([-1, 1]) for k in range(3)]
+            for n in given:
+                p3 = [o[k] + pos[n][k] for k in range(3)]
+                lines.append(f"HETATM{900 + len(lines):5d}  {n:<3s} HOH A{900 + wi:4d}    {p3[0]:8.3f}{p3[1]:8.3f}{p3[2]:8.3f}  1.00 20.00           {n[0]}")
+        text = body + "\n".join(lines) + "\nEND\n"
+        check_case(ctx, drv, text, ["--ff=" + rng.choice(["AMBER", "PARSE", "CHARMM"])] + rng.choice([[], ["--noopt"], ["--nodebump", "--noopt"]]), {"kind": "waters-with-own-hydrogens", "mode": "default", "target": "HOH", "pos": "?"}, seen_sig)
     # fully hydrogenated inputs re-run in a state whose patch REMOVES hydrogens the input carries
     # (neutral N-terminus: H3; the patches' remove lists act on the residue, not only on the reference)
     for ci in range(ctx.scale(6, 120)):
